@@ -197,6 +197,11 @@ func assignFitness(pop *genetics.Population, family int, frng *rand.Rand, gen in
 			o.Fitness = 1.0 + 0.001*float64(i)
 		case 6:
 			o.Fitness = 0.1 + 10*frng.Float64()
+		case 9: // finite values at the top of the float64 range ("perfect score" sentinels): sums over several species overflow
+			o.Fitness = 1e308 * (1 - 1e-3*float64((i+gen)%7))
+			if (i+gen)%5 == 0 {
+				o.Fitness = math.MaxFloat64
+			}
 		case 8: // distinct positive but tiny values (far below any fixed floor)
 			o.Fitness = 1e-7 * (1 + frng.Float64()) * float64(1+(i*7)%n)
 		default:
